@@ -25,6 +25,7 @@ import (
 
 	"github.com/AdguardTeam/golibs/hostsfile"
 	"github.com/AdguardTeam/golibs/netutil"
+	"golang.org/x/net/idna"
 
 	"verifharness/internal/vh"
 )
@@ -98,6 +99,32 @@ var aceCandidates = []string{
 	"рф", "хост.рф", "bücher.example", "пример.xn--p1ai", "xn--e1afmkfd.рф", "Bücher.XN--0",
 }
 
+// longCandidates: IDN names whose raw UTF-8 length and Punycode length fall
+// on different sides of the 253 / 63 byte limits.  ValidateDomainName
+// measures the idna.ToASCII form: runs of one rune compress well (30 CJK
+// runes are 90 bytes raw, about 40 in ASCII), many short non-ASCII labels
+// expand ("ü" is 2 bytes raw, "xn--tda" is 7).  See GetTables.
+var longCandidates = func() (out []string) {
+	labels := func(r string, n, k int) string {
+		l := make([]string, k)
+		for i := range l {
+			l[i] = rep(r, n)
+		}
+		return strings.Join(l, ".")
+	}
+	out = []string{
+		// raw > 253 bytes (and > 63 per label), ASCII form within the limits
+		labels("例", 30, 3) + ".jp", labels("例", 30, 3), labels("漢", 30, 4), labels("я", 55, 3), labels("я", 55, 4) + ".рф",
+		labels("例", 55, 2) + ".com", labels("я", 30, 4) + "." + labels("例", 30, 2), "host." + labels("例", 30, 3) + ".example",
+		// labels whose ASCII form may pass 63 bytes: the reference decides
+		labels("я", 85, 2) + ".example", labels("例", 85, 2), labels("例", 55, 4) + ".jp",
+		// mirror: raw < 253 bytes, ASCII form around / above 253
+		labels("ü", 1, 31) + ".abcde", labels("ü", 1, 31) + ".abcdef", labels("ü", 1, 40), labels("я", 1, 45) + ".рф",
+		labels("é", 1, 33), labels("ü", 1, 32) + ".com", labels("例", 1, 36) + ".jp", labels("ü", 1, 30) + ".example",
+	}
+	return out
+}()
+
 // commentTexts is what CMT stands for after the first '#': anything at all.
 var commentTexts = []string{"", " comment", "1.2.3.4 host.example", "#", "\t# x", "\xff\xfe", "text\rmore", "пример", "::1 localhost # again",
 	"a", " ", "\t", "###", "127.0.0.1\tlocalhost", "\x00", "é"}
@@ -157,13 +184,36 @@ func GetTables() (*Tables, error) {
 				tablesErr = fmt.Errorf("table %s entry %q: %s", tok, s, why)
 			}
 		}
+		// Long IDN names: classified by the reference; idna.ToASCII is used
+		// only to tell which side of the limits each form is on.
+		nLongValid, nMirrorBad := 0, 0
+		for _, name := range longCandidates {
+			ascii, ierr := idna.ToASCII(name)
+			tok := "Nidn"
+			if refName(name) != nil {
+				tok = "Nbad"
+			}
+			m[tok] = append(m[tok], name)
+			m[tok+"#ace"] = append(m[tok+"#ace"], name)
+			switch {
+			case tok == "Nidn" && len(name) > netutil.MaxDomainNameLen:
+				nLongValid++
+				m["#long_idn"] = append(m["#long_idn"], name)
+			case tok == "Nbad" && ierr == nil && len(name) <= netutil.MaxDomainNameLen && len(ascii) > netutil.MaxDomainNameLen:
+				nMirrorBad++
+				m["#mirror_bad"] = append(m["#mirror_bad"], name)
+			}
+		}
+		if (nLongValid < 4 || nMirrorBad < 3) && tablesErr == nil {
+			tablesErr = fmt.Errorf("long IDN tables: %d valid names longer than 253 raw bytes, %d invalid names shorter than 253 raw bytes", nLongValid, nMirrorBad)
+		}
 		for _, need := range []string{"Nbad#ace", "N#ace", "Nidn#ace"} {
 			if len(m[need]) < 3 && tablesErr == nil {
 				tablesErr = fmt.Errorf("table %s has only %d entries: the reference no longer separates the ACE candidates", need, len(m[need]))
 			}
 		}
 		for tok, list := range m {
-			if tok == "SP" || tok == "TAB" || tok == "HASH" || strings.HasSuffix(tok, "#ace") {
+			if tok == "SP" || tok == "TAB" || tok == "HASH" || strings.Contains(tok, "#") {
 				continue
 			}
 			for _, s := range list {
@@ -707,15 +757,39 @@ func replayLines(args []string) error {
 	// Bogus-ACE names (all-ASCII, every label host-name shaped, rejected only
 	// because idna.ToASCII fails) as the first bad name in the first / a
 	// middle / the last name position, and accepted lines with a valid ACE name.
-	aceFirst, aceMiddle, aceLast, aceAccepted := 0, 0, 0, 0
+	// Position counters for the special names: bogus ACE and "mirror" names
+	// (short raw, long ASCII form) as the first bad name, valid ACE names
+	// and long IDN names (raw > 253 bytes, ASCII form within the limits)
+	// among the retained names; position = first / middle / last of the
+	// name fields of the line.
 	tb, _ := GetTables()
-	isAceBad := map[string]bool{}
+	cat := map[string]string{}
 	for _, s := range tb.m["Nbad#ace"] {
-		isAceBad[s] = true
+		cat[s] = "ace_bad"
 	}
-	isAceGood := map[string]bool{}
+	for _, s := range tb.m["#mirror_bad"] {
+		cat[s] = "mirror_bad"
+	}
 	for _, s := range tb.m["N#ace"] {
-		isAceGood[s] = true
+		cat[s] = "ace_valid"
+	}
+	for _, s := range tb.m["#long_idn"] {
+		cat[s] = "long_idn"
+	}
+	special := map[string]int{}
+	for _, c := range []string{"ace_bad", "mirror_bad", "ace_valid", "long_idn"} {
+		for _, p := range []string{"first", "middle", "last"} {
+			special[c+"_"+p] = 0
+		}
+	}
+	posOf := func(idx, total int) string {
+		switch {
+		case idx == 0:
+			return "first"
+		case idx == total-1:
+			return "last"
+		}
+		return "middle"
 	}
 	conc := vh.NewDedup()
 	n, dd, err := ParallelVectors(args[0], func(raw []byte) error {
@@ -747,18 +821,16 @@ func replayLines(args []string) error {
 			conc.Add(c.Line)
 			if e.Kind == "Accept" {
 				accepted++
-				if slices.ContainsFunc(e.Names, func(n string) bool { return isAceGood[n] }) {
-					aceAccepted++
-				}
 			}
-			if e.Kind == "NameErr" && isAceBad[e.Bad] {
-				switch names := len(v.Fields) - 1; {
-				case v.N == names-1:
-					aceLast++
-				case v.N == 0:
-					aceFirst++
-				default:
-					aceMiddle++
+			if e.Kind == "Accept" || e.Kind == "NameErr" {
+				total := len(v.Fields) - 1
+				for i, n := range e.Names {
+					if c := cat[n]; c != "" {
+						special[c+"_"+posOf(i, total)]++
+					}
+				}
+				if c := cat[e.Bad]; e.Kind == "NameErr" && c != "" {
+					special[c+"_"+posOf(v.N, total)]++
 				}
 			}
 			if sampled < 4 && len(v.L) >= 4 && variant == 1 && Hash64(raw)%1009 < 8 && (e.Kind == "Accept" || e.Kind == "NameErr") {
@@ -775,9 +847,12 @@ func replayLines(args []string) error {
 	if err != nil {
 		return err
 	}
-	return res.Close(map[string]any{"vectors": n, "replayed": evals, "distinct_nontrivial": dd.N() - 1,
-		"distinct_concrete_lines": conc.N(), "accepted_roundtrips": accepted,
-		"ace_bad_first": aceFirst, "ace_bad_middle": aceMiddle, "ace_bad_last": aceLast, "ace_valid_accepted": aceAccepted})
+	sum := map[string]any{"vectors": n, "replayed": evals, "distinct_nontrivial": dd.N() - 1,
+		"distinct_concrete_lines": conc.N(), "accepted_roundtrips": accepted}
+	for k, v := range special {
+		sum[k] = v
+	}
+	return res.Close(sum)
 }
 
 // replayOne re-executes one concrete line (for --replay): prints what the
